@@ -84,9 +84,30 @@ def arrange(draw, vals, n, m, arrangement, distinct=False):
 EASY = st.one_of(st.just(0), st.just(0), st.integers(1, 5), st.integers(6, 200))
 
 
+def build_scores(s, which):
+    """The score container of a generated score set: float64 / float32 / int array or Python list."""
+    import numpy as np
+
+    vals = s[which]
+    c = s.get("container", "f64")
+    if c in ("neg-int", "pos-int", "neg-f32"):
+        # mixed containers: one class in a narrower dtype than the other
+        cls, kind = c.split("-")
+        if which == cls:
+            return np.asarray(vals, dtype=int if kind == "int" else np.float32)
+        return np.asarray(vals, dtype=float)
+    if c == "list":
+        return list(vals)
+    if s["mode"] == "int":
+        return np.asarray(vals, dtype=int)
+    if c == "f32":
+        return np.asarray(vals, dtype=np.float32)
+    return np.asarray(vals, dtype=float)
+
+
 @st.composite
 def score_sets(draw, min_pos=0, min_neg=0, max_size=12, modes=ALL_MODES, mag=1e6, easy=True,
-               arrangements=ARRANGEMENTS, max_easy=200):
+               arrangements=ARRANGEMENTS, max_easy=200, containers=("f64",), huge_easy=False):
     """
     dict(pos, neg, ep, en, mode, arr).  'distinct' mode guarantees that no value repeats
     within or across the classes (minimum separation a*1).
@@ -99,10 +120,47 @@ def score_sets(draw, min_pos=0, min_neg=0, max_size=12, modes=ALL_MODES, mag=1e6
     pos, neg = arrange(draw, vals, n, m, arr, distinct=(mode == "distinct"))
     if easy:
         ez = st.one_of(st.just(0), st.just(0), st.integers(1, 5), st.integers(6, max_easy))
+        if huge_easy:  # counts beyond 32-bit range
+            ez = st.one_of(ez, ez, ez, st.sampled_from([2**31 - 6, 2**31, 3_000_000_000, 2**40]))
         ep, en = draw(ez), draw(ez)
     else:
         ep = en = 0
-    return dict(pos=list(pos), neg=list(neg), ep=ep, en=en, mode=mode, arr=arr)
+    container = draw(st.sampled_from(containers))
+    if container in ("neg-int", "pos-int", "neg-f32"):
+        import numpy as np
+
+        cls, kind = container.split("-")
+        if mode == "int" or (kind == "f32" and mode == "distinct"):
+            container = "f64"
+        elif kind == "int":
+            if mode in ("float", "ulp"):
+                container = "f64"
+            else:
+                npos = [float(math.floor(v)) for v in pos] if cls == "pos" else list(pos)
+                nneg = [float(math.floor(v)) for v in neg] if cls == "neg" else list(neg)
+                if mode == "distinct" and len(set(npos + nneg)) != len(npos + nneg):
+                    container = "f64"  # flooring would create ties
+                else:
+                    pos, neg = npos, nneg
+        else:
+            nneg = [float(np.float32(v)) for v in neg]
+            if all(math.isfinite(v) for v in nneg):
+                neg = nneg
+            else:
+                container = "f64"
+    if container == "f32":
+        if mode in ("grid", "dyadic", "int"):
+            pass  # exactly representable
+        elif mode in ("float", "ulp"):
+            import numpy as np
+
+            pos = [float(np.float32(v)) for v in pos]
+            neg = [float(np.float32(v)) for v in neg]
+            if not all(math.isfinite(v) for v in pos + neg):
+                container = "f64"
+        else:
+            container = "f64"  # 'distinct' must stay distinct
+    return dict(pos=list(pos), neg=list(neg), ep=ep, en=en, mode=mode, arr=arr, container=container)
 
 
 @st.composite
